@@ -30,7 +30,7 @@ pub fn gen_library(r: &mut Rng, big: bool) -> Vec<(String, String)> {
                 // well-nested most of the time
                 level = if r.chance(1, 10) { r.range(1, 6) } else { (level + r.below(2)).max(1).min(if r.chance(1, 3) { level + 1 } else { level.max(1) }) };
                 let level = level.max(1).min(6);
-                let t = if r.chance(1, 12) { "`x`".to_string() } else if r.chance(1, 14) { String::new() } else { format!("{} {}", r.pick(&titles), r.below(3)) };
+                let t = if r.chance(1, 12) { "`x`".to_string() } else if r.chance(1, 14) { String::new() } else if r.chance(1, 12) { format!("see [[{}]] and *more* {}", r.pick(&keys[..]).rsplit('/').next().unwrap_or("n0"), r.below(3)) } else { format!("{} {}", r.pick(&titles), r.below(3)) };
                 text.push_str(&format!("{} {}\n\n", "#".repeat(level), t));
                 match r.below(6) {
                     0 | 1 => {
@@ -92,7 +92,7 @@ fn expected_chains(formatted: &BTreeMap<String, String>) -> Vec<String> {
                 stack.pop();
             }
             let parent = stack.last().map(|(_, i)| *i);
-            hs.push(H { note: k.clone(), text: h.text.clone(), parent, refs: vec![] });
+            hs.push(H { note: k.clone(), text: h.full_text.clone(), parent, refs: vec![] });
             let idx = hs.len() - 1;
             index_of.insert(hi, idx);
             if parent.is_none() {
@@ -177,9 +177,9 @@ pub fn check_library(lib: &[(String, String)]) -> Option<String> {
     for (k, text) in &formatted {
         let dir = crate::oracle::md::dir_of(k);
         for h in md::read(text, &dir).headings.iter().filter(|h| h.ctx.is_empty()) {
-            let tail = format!("{}:{}", k, h.text);
+            let tail = format!("{}:{}", k, h.full_text);
             if !got.iter().any(|c| c == &tail || c.ends_with(&format!(" > {}", tail))) {
-                return Some(format!("heading {:?} of note {:?} is the end of no listed path", h.text, k));
+                return Some(format!("heading {:?} of note {:?} is the end of no listed path", h.full_text, k));
             }
         }
     }
